@@ -254,6 +254,68 @@ theorem wagerBet_sstep {s0 s1 : State} (h01 : SurplusStep s0 s1 True) (owner a :
           rw [hplain a ha]
         · exact id
 
+theorem wagerReturn_sstep {s0 s2 : State} (h2inv : Inv s2) (h02 : SurplusStep s0 s2 True) (owner a : Nat) (main sub : Int)
+    (ho : owner < subBase) : SurplusStep s0 (wagerReturn s0 s2 owner a main sub).1 True := by
+  unfold wagerReturn
+  split
+  · exact h02
+  · dsimp only
+    split
+    · exact h02
+    · split
+      · exact .refl _ _
+      · rename_i sb hs
+        split
+        · exact .refl _ _
+        · split
+          · exact .refl _ _
+          · rename_i bank' hsend
+            have hb := send_apply hsend
+            have ha : subBase ≤ a := (h2inv.range a (by simp [hs])).1
+            have hne : a ≠ owner := by omega
+            refine h02.trans (e2 := True) ?_ id id
+            apply SurplusStep.of_update hs
+            · intro y hy hya
+              have : y ≠ owner := by omega
+              rw [hb, if_neg this, if_neg hya]; omega
+            · rw [hb, if_neg hne, if_pos rfl]
+              simp only [Summary.available]; omega
+            · intro _
+              rw [hb, if_neg hne, if_pos rfl]
+              simp only [Summary.available]; omega
+            · exact id
+
+theorem wagerTail_sstep {s : State} (hinv : Inv s) (owner a : Nat) (main sub : Int) (x : WagerExt)
+    (ho : owner < subBase) (ha : subBase ≤ a) : SurplusStep s (wagerTail s owner a main sub x).1 True := by
+  unfold wagerTail
+  cases h1 : withdrawLockedAt s a owner sub with
+  | mk s1 r1 =>
+    cases r1 with
+    | ok =>
+      dsimp only
+      have hi1 : Inv s1 := by
+        have := withdrawLockedAt_inv hinv a owner sub
+        rw [h1] at this; exact this
+      have hs1 : SurplusStep s s1 True := by
+        have := withdrawLockedAt_sstep hinv a owner sub ho
+        rw [h1] at this; exact this
+      cases h2 : wagerBet s s1 owner a x with
+      | mk s2 r2 =>
+        cases r2 with
+        | ok =>
+          dsimp only
+          have hi2 : Inv s2 := by
+            have := wagerBet_inv hinv hi1 owner a x
+            rw [h2] at this; exact this
+          have hs2 : SurplusStep s s2 True := by
+            have := wagerBet_sstep hs1 owner a x ho ha
+            rw [h2] at this; exact this
+          exact wagerReturn_sstep hi2 hs2 owner a main sub ho
+        | err e => exact .refl _ _
+        | panic => exact .refl _ _
+    | err e => exact .refl _ _
+    | panic => exact .refl _ _
+
 theorem wager_sstep {s : State} (hinv : Inv s) (hop : OwnersPlain s) (owner : Nat) (main sub : Int) (x : WagerExt) :
     SurplusStep s (wager s owner main sub x).1 True := by
   unfold wager
@@ -266,12 +328,7 @@ theorem wager_sstep {s : State} (hinv : Inv s) (hop : OwnersPlain s) (owner : Na
       repeat' split
       all_goals first
         | exact .refl _ _
-        | (rename_i s1 heq
-           have h1 : SurplusStep s s1 True := by
-             have h := congrArg Prod.fst heq
-             simp only at h
-             rw [← h]; exact withdrawLockedAt_sstep hinv _ _ _ ho
-           exact wagerBet_sstep h1 _ _ _ ho ha)
+        | exact wagerTail_sstep hinv _ _ _ _ _ ho ha
 
 theorem houseDeposit_sstep {s : State} (hinv : Inv s) (owner : Nat) (amount : Int) (x : HouseDepExt) (hok : x.taken ≤ amount) :
     SurplusStep s (houseDeposit s owner amount x).1 (x.taken = amount) := by
@@ -647,16 +704,47 @@ theorem wagerBet_subMap (s0 s1 : State) (owner a : Nat) (x : WagerExt) (h : s1.s
   repeat' split
   all_goals first | rfl | exact h
 
+theorem wagerReturn_subMap (s0 s2 : State) (owner a : Nat) (main sub : Int) (h : s2.subMap = s0.subMap) :
+    (wagerReturn s0 s2 owner a main sub).1.subMap = s0.subMap := by
+  unfold wagerReturn
+  split
+  · exact h
+  · dsimp only
+    repeat' split
+    all_goals first | rfl | exact h
+
+theorem wagerTail_subMap (s : State) (owner a : Nat) (main sub : Int) (x : WagerExt) :
+    (wagerTail s owner a main sub x).1.subMap = s.subMap := by
+  unfold wagerTail
+  cases h1 : withdrawLockedAt s a owner sub with
+  | mk s1 r1 =>
+    cases r1 with
+    | ok =>
+      dsimp only
+      have e1 : s1.subMap = s.subMap := by
+        have := withdrawLockedAt_subMap s a owner sub
+        rw [h1] at this; exact this
+      cases h2 : wagerBet s s1 owner a x with
+      | mk s2 r2 =>
+        cases r2 with
+        | ok =>
+          dsimp only
+          have e2 : s2.subMap = s.subMap := by
+            have := wagerBet_subMap s s1 owner a x e1
+            rw [h2] at this; exact this
+          exact wagerReturn_subMap _ _ _ _ _ _ e2
+        | err e => rfl
+        | panic => rfl
+    | err e => rfl
+    | panic => rfl
+
 theorem wager_subMap (s : State) (owner : Nat) (main sub : Int) (x : WagerExt) :
     (wager s owner main sub x).1.subMap = s.subMap := by
   unfold wager
   repeat' split
   all_goals first
     | rfl
-    | (rename_i s1 heq
-       have h := congrArg Prod.fst heq
-       simp only at h
-       exact wagerBet_subMap _ _ _ _ _ (by rw [← h]; exact withdrawLockedAt_subMap ..))
+    | exact wagerTail_subMap ..
 
 theorem houseDeposit_subMap (s : State) (owner : Nat) (amount : Int) (x : HouseDepExt) :
     (houseDeposit s owner amount x).1.subMap = s.subMap := by
@@ -854,16 +942,47 @@ theorem wagerBet_fixed (s0 s1 : State) (owner a : Nat) (x : WagerExt) (h : s1.fi
   repeat' split
   all_goals first | rfl | exact h
 
+theorem wagerReturn_fixed (s0 s2 : State) (owner a : Nat) (main sub : Int) (h : s2.fixed = s0.fixed) :
+    (wagerReturn s0 s2 owner a main sub).1.fixed = s0.fixed := by
+  unfold wagerReturn
+  split
+  · exact h
+  · dsimp only
+    repeat' split
+    all_goals first | rfl | exact h
+
+theorem wagerTail_fixed (s : State) (owner a : Nat) (main sub : Int) (x : WagerExt) :
+    (wagerTail s owner a main sub x).1.fixed = s.fixed := by
+  unfold wagerTail
+  cases h1 : withdrawLockedAt s a owner sub with
+  | mk s1 r1 =>
+    cases r1 with
+    | ok =>
+      dsimp only
+      have e1 : s1.fixed = s.fixed := by
+        have := withdrawLockedAt_fixed s a owner sub
+        rw [h1] at this; exact this
+      cases h2 : wagerBet s s1 owner a x with
+      | mk s2 r2 =>
+        cases r2 with
+        | ok =>
+          dsimp only
+          have e2 : s2.fixed = s.fixed := by
+            have := wagerBet_fixed s s1 owner a x e1
+            rw [h2] at this; exact this
+          exact wagerReturn_fixed _ _ _ _ _ _ e2
+        | err e => rfl
+        | panic => rfl
+    | err e => rfl
+    | panic => rfl
+
 theorem wager_fixed (s : State) (owner : Nat) (main sub : Int) (x : WagerExt) :
     (wager s owner main sub x).1.fixed = s.fixed := by
   unfold wager
   repeat' split
   all_goals first
     | rfl
-    | (rename_i s1 heq
-       have h := congrArg Prod.fst heq
-       simp only at h
-       exact wagerBet_fixed _ _ _ _ _ (by rw [← h]; exact withdrawLockedAt_fixed ..))
+    | exact wagerTail_fixed ..
 
 theorem houseDeposit_fixed (s : State) (owner : Nat) (amount : Int) (x : HouseDepExt) :
     (houseDeposit s owner amount x).1.fixed = s.fixed := by
